@@ -174,8 +174,12 @@ def run(ctx):
     raw = open(path, 'rb').read()
     offs = list(range(12, len(raw))) if ctx.thorough else sorted(set(list(range(12, 120)) + rnd.sample(range(120, len(raw)), 150)))
     cases = [dict(file='tests/data/APK/Test.dex', off=o, xor=x) for o in offs for x in ((0x01, 0x80) if ctx.thorough else (rnd.choice([1, 2, 0x80, 0xff]),))]
-    cases.append(dict(file='tests/data/APK/Test.dex', off=0, xor=0))
-    ctx.diff_unhooked(sys.modules[__name__], cases)
+    # the unchanged file is parsed first: every changed copy is then judged in a process that has already accepted the
+    # original (replays repeat that history)
+    cases.insert(0, dict(file='tests/data/APK/Test.dex', off=0, xor=0))
+    # (a disagreement between the hooked and the unhooked module on a changed file is not raised here: the loop below
+    # judges every case, and its witnesses are replayed on the unhooked module anyway)
+    ctx.diff_unhooked(sys.modules[__name__], cases, collect=True)
     for c in cases:
         got = concrete(c)
         want = 'accepted' if c['xor'] == 0 else 'rejected'
@@ -208,8 +212,10 @@ def concrete(c):
 def replay(w):
     from androguard.core import dex
     if w['kind'] == 'flip':
+        first = concrete(dict(file=w['file'], off=0, xor=0))
         got = concrete(w)
-        return got != 'rejected', 'byte %d of %s xor 0x%02x: file %s' % (w['off'], w['file'], w['xor'], got)
+        return got != 'rejected', 'after the unchanged %s was %s in the same process: byte %d xor 0x%02x: file %s' % (
+            w['file'], first, w['off'], w['xor'], got)
     bs = bytes.fromhex(w['bytes'])
     made = []
     real_adler = zlib.adler32
